@@ -171,42 +171,58 @@ Lemma add_step f br b done names tag nm deps rd wr t :
   match check_call names nm deps with
   | None => exists b' f' done',
       add b tag nm deps rd wr t = Ok b' /\ sim f' (add_or_bump br (add br tag nm deps rd wr t)) b' /\
-      binv b' done' /\ names_agree (if negb (is_empty_name nm) then names ++ [nm] else names) b'
-  | Some _ => exists f', sim f' (add_or_bump br (add br tag nm deps rd wr t)) b
+      binv b' done' /\ names_agree (if negb (is_empty_name nm) then names ++ [nm] else names) b' /\
+      forall k, add_err k (add br tag nm deps rd wr t) = []
+  | Some e => (exists f', sim f' (add_or_bump br (add br tag nm deps rd wr t)) b) /\
+              forall k, add_err k (add br tag nm deps rd wr t) = [(k, e)]
   end.
 Proof.
   intros I A S Ht.
   pose proof (add_spec names b done tag nm deps rd wr t I A Ht) as Sp.
   pose proof (add_sim f br b tag nm deps rd wr t S) as Sm.
   destruct (check_call names nm deps) as [e|].
-  - rewrite Sp in Sm. rewrite Sm. cbn [add_or_bump]. eexists. eapply bump_sim; eauto.
+  - rewrite Sp in Sm. rewrite Sm. cbn [add_or_bump add_err]. split; [|reflexivity]. eexists. eapply bump_sim; eauto.
   - destruct Sp as (b' & Hb' & A' & done' & I'). rewrite Hb' in Sm. destruct Sm as (br' & -> & S').
-    cbn [add_or_bump]. exists b', f, done'. auto.
+    cbn [add_or_bump add_err]. exists b', f, done'. auto.
 Qed.
+
+Lemma berrs_batch tag nm deps cr cw t cnt inner b k :
+  berrs_reg (RBatch tag nm deps cr cw t cnt inner) b k =
+  berrs_regs inner empty_builder k ++
+  add_err (k + calls_regs inner)%nat
+    (add b tag nm deps (all_reads (rrun_regs inner empty_builder) ++ cr) (all_writes (rrun_regs inner empty_builder) ++ cw) t).
+Proof. reflexivity. Qed.
+
+Lemma rerrs_batch tag nm deps cr cw t cnt inner names k :
+  rerrs_reg (RBatch tag nm deps cr cw t cnt inner) names k =
+  rerrs_regs inner [] k ++ match check_call names nm deps with Some e => [((k + calls_regs inner)%nat, e)] | None => [] end.
+Proof. reflexivity. Qed.
 
 Lemma run_rec_sim : forall n rs,
   (size_regs rs <= n)%nat -> regs_times_ok rs ->
   forall f br b done names, binv b done -> names_agree names b -> sim f br b ->
   exists b' f' done',
     run_regs (accepted_from rs names) b = Ok b' /\ sim f' (rrun_regs rs br) b' /\
-    binv b' done' /\ names_agree (names_fold rs names) b'.
+    binv b' done' /\ names_agree (names_fold rs names) b' /\
+    forall k, berrs_regs rs br k = rerrs_regs rs names k.
 Proof.
   induction n as [|n IHn]; intros rs Hsz Ht f br b done names I A S.
-  - destruct rs as [|r rs]; [cbn; eauto 8|]. exfalso. cbn in Hsz. destruct r; cbn in Hsz; lia.
-  - destruct rs as [|r rs]; [cbn; eauto 8|].
+  - destruct rs as [|r rs]; [cbn; eauto 10|]. exfalso. cbn in Hsz. destruct r; cbn in Hsz; lia.
+  - destruct rs as [|r rs]; [cbn; eauto 10|].
     destruct Ht as [Hr Hrs]. cbn [size_regs] in Hsz.
     assert (Hsz_rs : (size_regs rs <= n)%nat) by (destruct r; cbn in Hsz; lia).
     cbn [accepted_from rrun_regs names_fold].
     (* the first registration *)
     assert (Hstep : exists b1 f1 done1,
               run_regs (if call_ok names r then [accepted_reg r] else []) b = Ok b1 /\
-              sim f1 (rrun_reg r br) b1 /\ binv b1 done1 /\ names_agree (names_next names r) b1).
+              sim f1 (rrun_reg r br) b1 /\ binv b1 done1 /\ names_agree (names_next names r) b1 /\
+              forall k, berrs_reg r br k = rerrs_reg r names k).
     { destruct r as [tag nm deps rd wr t | tag nm deps cr cw t cnt inner | tag |].
       - cbn in Hr. pose proof (add_step f br b done names tag nm deps rd wr t I A S Hr) as St.
-        unfold names_next, names_after, call_ok. cbn [rrun_reg is_sys reg_tag reg_name].
+        unfold names_next, names_after, call_ok. cbn [rrun_reg berrs_reg rerrs_reg is_sys reg_tag reg_name].
         destruct (check_call names nm deps) as [e|].
-        + destruct St as (f' & S'). exists b, f', done. cbn [run_regs]. auto.
-        + destruct St as (b' & f' & done' & Hb' & S' & I' & A'). exists b', f', done'.
+        + destruct St as ((f' & S') & E). exists b, f', done. cbn [run_regs]. auto.
+        + destruct St as (b' & f' & done' & Hb' & S' & I' & A' & E). exists b', f', done'.
           cbn [run_regs accepted_reg run_reg bind]. rewrite Hb'. cbn [bind andb]. auto.
       - destruct Hr as [Htime Hinner].
         change ((fix go (rs : list reg) : Prop := match rs with [] => True | r' :: rs' => reg_times_ok r' /\ go rs' end) inner)
@@ -215,35 +231,45 @@ Proof.
         { cbn [size_reg] in Hsz. change ((fix go (rs : list reg) : nat := match rs with [] => O | r' :: rs' => (size_reg r' + go rs')%nat end) inner)
             with (size_regs inner) in Hsz. lia. }
         destruct (IHn inner Hin Hinner (fun i => i) empty_builder empty_builder [] [] binv_empty names_agree_empty sim_empty)
-          as (bi & fi & donei & Hbi & Si & _ & _).
+          as (bi & fi & donei & Hbi & Si & _ & _ & Ei).
         destruct (all_reads_sim _ _ _ Si) as [Er Ew].
-        rewrite rrun_batch. cbn zeta. rewrite Er, Ew.
+        rewrite rrun_batch. cbn zeta.
+        assert (EB : forall k, berrs_reg (RBatch tag nm deps cr cw t cnt inner) br k =
+                               rerrs_regs inner [] k ++ add_err (k + calls_regs inner)%nat
+                                 (add br tag nm deps (all_reads bi ++ cr) (all_writes bi ++ cw) t)).
+        { intros k. rewrite berrs_batch, Ei, Er, Ew. reflexivity. }
+        rewrite Er, Ew.
         pose proof (add_step f br b done names tag nm deps (all_reads bi ++ cr) (all_writes bi ++ cw) t I A S Htime) as St.
         unfold names_next, names_after, call_ok. cbn [is_sys reg_tag reg_name].
-        destruct (check_call names nm deps) as [e|].
-        + destruct St as (f' & S'). exists b, f', done. cbn [run_regs]. auto.
-        + destruct St as (b' & f' & done' & Hb' & S' & I' & A'). exists b', f', done'.
+        destruct (check_call names nm deps) as [e|] eqn:CC.
+        + destruct St as ((f' & S') & E). exists b, f', done. cbn [run_regs].
+          split; [reflexivity|]. split; [exact S'|]. split; [exact I|]. split; [exact A|].
+          intros k. rewrite EB, rerrs_batch, CC, E. reflexivity.
+        + destruct St as (b' & f' & done' & Hb' & S' & I' & A' & E). exists b', f', done'.
           rewrite accepted_batch. cbn [run_regs]. rewrite run_reg_op. cbn [reg_op]. rewrite Hbi. cbn [bind run_op o_tag o_name o_deps o_reads o_writes o_time].
-          rewrite Hb'. cbn [bind andb]. auto.
+          rewrite Hb'. cbn [bind andb].
+          split; [reflexivity|]. split; [exact S'|]. split; [exact I'|]. split; [exact A'|].
+          intros k. rewrite EB, rerrs_batch, CC, E. reflexivity.
       - exists (add_thread_local b tag), f, done. cbn [call_ok accepted_reg run_regs run_reg bind rrun_reg].
         split; [reflexivity|]. split.
         + destruct S. constructor; cbn [add_thread_local b_next b_names b_barrier b_stages b_tl]; auto. congruence.
         + split.
           * destruct I; constructor; auto.
-          * unfold names_next, names_after. cbn [call_ok is_sys reg_tag andb]. exact A.
+          * split; [|reflexivity]. unfold names_next, names_after. cbn [call_ok is_sys reg_tag andb]. exact A.
       - exists (add_barrier b), f.
         destruct (run_op_preserves b done OBar (add_barrier b) I Logic.I eq_refl) as (m & Im & _).
         exists (done ++ m). cbn [call_ok accepted_reg run_regs run_reg bind rrun_reg].
         split; [reflexivity|]. split.
         + destruct S. constructor; cbn [add_barrier b_next b_names b_barrier b_stages b_tl]; auto.
           rewrite sm_stages0. unfold ren_stages. now rewrite map_length.
-        + split; [exact Im|]. unfold names_next, names_after. cbn [call_ok is_sys reg_tag andb]. exact A. }
-    destruct Hstep as (b1 & f1 & done1 & H1 & S1 & I1 & A1).
-    destruct (IHn rs Hsz_rs Hrs f1 (rrun_reg r br) b1 done1 (names_next names r) I1 A1 S1) as (b' & f' & done' & H' & S' & I' & A').
-    exists b', f', done'. split; [|auto].
-    destruct (call_ok names r); cbn [run_regs] in *.
-    + destruct (run_reg (accepted_reg r) b) as [bx|]; cbn [bind] in *; [|discriminate]. inversion H1; subst. exact H'.
-    + inversion H1; subst. exact H'.
+        + split; [exact Im|]. split; [|reflexivity]. unfold names_next, names_after. cbn [call_ok is_sys reg_tag andb]. exact A. }
+    destruct Hstep as (b1 & f1 & done1 & H1 & S1 & I1 & A1 & E1).
+    destruct (IHn rs Hsz_rs Hrs f1 (rrun_reg r br) b1 done1 (names_next names r) I1 A1 S1) as (b' & f' & done' & H' & S' & I' & A' & E').
+    exists b', f', done'. split.
+    + destruct (call_ok names r); cbn [run_regs] in *.
+      * destruct (run_reg (accepted_reg r) b) as [bx|]; cbn [bind] in *; [|discriminate]. inversion H1; subst. exact H'.
+      * inversion H1; subst. exact H'.
+    + split; [exact S'|]. split; [exact I'|]. split; [exact A'|]. intros k. cbn [berrs_regs rerrs_regs]. now rewrite E1, E'.
 Qed.
 
 (* THE THEOREM: the builder used on after caught panics plans exactly the accepted registrations *)
@@ -256,10 +282,21 @@ Theorem plan_rec_is_plan_of_accepted rs :
 Proof.
   intros Ht.
   destruct (run_rec_sim (size_regs rs) rs (le_n _) Ht (fun i => i) empty_builder empty_builder [] []
-              binv_empty names_agree_empty sim_empty) as (b & f & done & Hb & S & _ & _).
+              binv_empty names_agree_empty sim_empty) as (b & f & done & Hb & S & _ & _ & _).
   exists b. split; [exact Hb|].
   unfold plan_rec, layout_tags, shape, max_threads, sendable.
   rewrite (sm_stages _ _ _ S), (sm_tl _ _ _ S), layout_tags_ren, shape_ren, lengths_ren. auto.
+Qed.
+
+(* every ill-formed call is rejected AT THE CALL, however many were caught before it: the calls at which the
+   recovering builder raises an error, with those errors, are exactly the calls the name bookkeeping rejects *)
+Theorem rec_errs_are_the_builders rs :
+  regs_times_ok rs -> berrs_regs rs empty_builder O = rec_errs rs.
+Proof.
+  intros Ht.
+  destruct (run_rec_sim (size_regs rs) rs (le_n _) Ht (fun i => i) empty_builder empty_builder [] []
+              binv_empty names_agree_empty sim_empty) as (b & f & done & _ & _ & _ & _ & E).
+  apply E.
 Qed.
 
 (* ---- C20 for a recovered builder: the printed text is the text of the accepted program's builder, except that
@@ -294,7 +331,7 @@ Theorem print_rec_is_print_of_accepted rs :
 Proof.
   intros Ht.
   destruct (run_rec_sim (size_regs rs) rs (le_n _) Ht (fun i => i) empty_builder empty_builder [] []
-              binv_empty names_agree_empty sim_empty) as (b & f & done & Hb & S & _ & _).
+              binv_empty names_agree_empty sim_empty) as (b & f & done & Hb & S & _ & _ & _).
   exists b, f. split; [apply S|]. split; [exact Hb|]. split; [reflexivity|].
   unfold plan_rec. unfold print_builder. rewrite (layout_ids_sim _ _ _ S), (sm_names _ _ _ S).
   f_equal. unfold map3. rewrite !map_map. apply map_ext. intros st. rewrite !map_map. apply map_ext. intros g.
